@@ -82,7 +82,7 @@ class Register(GlobalVar):
         else:
             init = self.il_isa_to_assoc_name() + "\n"
 
-        if self.isa_id == "x":
+        if self.is_read_write():
             # Rx is always read newly. Since we read the _tmp reg
             # after it was written once.
             return init
@@ -143,12 +143,19 @@ class Register(GlobalVar):
         # Examples: a2_svaddh, a4_vcmpbgt
         if self.access is RegisterAccessType.W or self.access is RegisterAccessType.PW:
             return f"READ_REG(pkt, {self.get_op_var()}, true)"
-        if self.isa_id == "x":
+        if self.is_read_write():
             # Fresh reads for Rx registers, since their value changes.
             return self.get_reg_read_code()
         if self.access == RegisterAccessType.UNKNOWN:
             self.access = RegisterAccessType.R
         return GlobalVar.il_read(self).replace(":", "_")
+
+    def is_read_write(self) -> bool:
+        """True if the register is read and written by the instruction (Rx, Ryy or a source which gets assigned)."""
+        return self.isa_id == "x" or self.access in [
+            RegisterAccessType.RW,
+            RegisterAccessType.PRW,
+        ]
 
     def get_pred_num(self) -> int:
         num = re.findall(r"\d", self.get_name())[0]
